@@ -193,7 +193,8 @@ type Peer struct {
 	OnMsg    func(m RecvMsg) // called from the reader goroutine
 	// KeepTransport keeps the transport and work connections open after the control connection has closed.
 	KeepTransport bool
-	conns         []net.Conn // every logical connection opened (non-mux mode: separate transports)
+	conns         []net.Conn     // every logical connection opened (non-mux mode: separate transports)
+	raws          []*simnet.Conn // every transport connection dialled
 }
 
 func (p *Peer) extra() []net.Conn {
@@ -216,6 +217,9 @@ func (p *Peer) rawConn() (net.Conn, error) {
 	if err != nil {
 		return nil, err
 	}
+	p.mu.Lock()
+	p.raws = append(p.raws, c)
+	p.mu.Unlock()
 	var conn net.Conn = c
 	if p.Opts.WS {
 		cfg, err := websocket.NewConfig("ws://"+p.Opts.Server+"/~!frp", "http://"+p.Opts.Server)
@@ -536,6 +540,19 @@ func AwaitStart(conn net.Conn, timeout time.Duration) (M, error) {
 }
 
 // Drop closes the peer's transport abruptly.
+// ServerGone reports (simulator's view) whether the server has closed its end of every transport connection
+// this peer ever dialled: only then has everything the peer sent been consumed or discarded.
+func (p *Peer) ServerGone() bool {
+	p.mu.Lock()
+	defer p.mu.Unlock()
+	for _, c := range p.raws {
+		if !c.OtherEndClosed() {
+			return false
+		}
+	}
+	return true
+}
+
 func (p *Peer) Drop() {
 	if p.sess != nil {
 		p.sess.Close()
